@@ -877,12 +877,21 @@ def signature(j):
 
 # --------------------------------------------------------- C11: leaf forms
 
-UNPACK_SLOT_KINDS = ["plain", "plain", "plain", "star", "dstar", "kw", "long-star", "long-dstar",
-                     "star-surplus", "dstar-surplus", "star-empty", "dstar-empty"]
+UNPACK_SLOT_KINDS = (["plain"] * 7 + ["star"] * 3 + ["dstar"] * 3 + ["kw"] * 3 +
+                     ["long-star", "long-dstar", "star-surplus", "dstar-surplus", "dstar-surplus"])
+RARE_SLOT_KINDS = ["star-empty", "dstar-empty"]
+OBJ_FORMS = ["call", "method", "dot", "get"]                 # evaluate to a stand-in
+HASHABLE_FORMS = OBJ_FORMS + ["op", "cut", "tuple", "fstring", "cmp", "chainc"]
+ANY_FORMS = ["call", "call", "method", "dot", "list", "tuple", "set", "dict", "get", "cut", "op", "cmp",
+             "chainc", "fstring"]
+CMP1 = ("=", "is", "<", "<=", ">", ">=")                    # accept a single operand
 
 
 class LeafGen:
-    """Builds one straight-line form; every evaluated leaf is a fresh vN."""
+    """Builds one straight-line form; every evaluated leaf is a fresh vN.
+    `want` steers nested operands so that running the form on stand-in values
+    rarely raises: 'obj' = something callable/subscriptable (a leaf or a call-like
+    form), 'hashable' = not a list/set/dict display, 'any'."""
 
     def __init__(self, rng, max_nest=3):
         self.rng = rng
@@ -901,54 +910,55 @@ class LeafGen:
         self.kn += 1
         return KW(f"k{self.kn}")
 
-    def operand(self, nest):
+    def operand(self, nest, want="any"):
         """A leaf or a nested form."""
         if nest >= self.max_nest or self.rng.random() < 0.55:
             return self.leaf()
-        return self.form(nest + 1)
+        kinds = {"obj": OBJ_FORMS, "hashable": HASHABLE_FORMS}.get(want, ANY_FORMS)
+        return self.form(nest + 1, self.rng.choice(kinds))
 
-    def slot(self, nest, allow=None):
+    def slot(self, nest, allow=None, want="any"):
         """List of IR nodes filling one argument/element slot."""
         rng = self.rng
-        kind = rng.choice(allow or UNPACK_SLOT_KINDS)
+        if allow is None:
+            allow = RARE_SLOT_KINDS if rng.random() < 0.03 else UNPACK_SLOT_KINDS
+        kind = rng.choice(allow)
         self.kinds.add("slot:" + kind)
         if kind == "plain":
-            return [self.operand(nest)]
+            return [self.operand(nest, want)]
         if kind == "kw":
-            return [self.kwname(), self.operand(nest)]
+            return [self.kwname(), self.operand(nest, want)]
         self.unpacks += 1
         if kind in ("star", "long-star"):
-            return [E(S("unpack-iterable"), self.operand(nest))]
+            return [E(S("unpack-iterable"), self.operand(nest, "obj"))]
         if kind in ("dstar", "long-dstar"):
-            return [E(S("unpack-mapping"), self.operand(nest))]
+            return [E(S("unpack-mapping"), self.operand(nest, "obj"))]
         if kind == "star-surplus":
-            return [E(S("unpack-iterable"), self.operand(nest), self.operand(nest))]
+            return [E(S("unpack-iterable"), self.operand(nest, "obj"), self.operand(nest))]
         if kind == "dstar-surplus":
-            return [E(S("unpack-mapping"), self.operand(nest), self.operand(nest))]
+            return [E(S("unpack-mapping"), self.operand(nest, "obj"), self.operand(nest))]
         if kind == "star-empty":
             return [E(S("unpack-iterable"))]
         return [E(S("unpack-mapping"))]
 
-    def slots(self, nest, lo, hi, allow=None):
+    def slots(self, nest, lo, hi, allow=None, want="any"):
         out = []
         for _ in range(self.rng.randint(lo, hi)):
-            out.extend(self.slot(nest, allow))
+            out.extend(self.slot(nest, allow, want))
         return out
 
-    def form(self, nest=0):
+    def form(self, nest=0, kind=None):
         rng = self.rng
-        kind = rng.choice(["call", "call", "method", "dot", "list", "tuple", "set", "dict", "get", "cut",
-                           "op", "cmp", "chainc", "fstring", "decorators", "bases"]
-                          if nest == 0 else
-                          ["call", "call", "method", "dot", "list", "tuple", "set", "dict", "get", "cut",
-                           "op", "cmp", "chainc", "fstring"])
+        if kind is None:
+            kind = rng.choice(ANY_FORMS + (["decorators", "bases"] if nest == 0 else []))
         self.kinds.add("form:" + kind)
+        objslot = ["plain", "plain", "plain", "star", "dstar"]
         if kind == "call":
-            return E(self.operand(nest), *self.slots(nest, 0, 4))
+            return E(self.operand(nest, "obj"), *self.slots(nest, 0, 4))
         if kind == "method":
             # (.m obj args...): the object may come after keyword/mapping slots
             pre = self.slots(nest, 0, 1, ["kw", "dstar", "long-dstar"]) if rng.random() < 0.2 else []
-            return E(E(S("."), S("None"), S("m")), *pre, self.operand(nest), *self.slots(nest, 0, 3))
+            return E(E(S("."), S("None"), S("m")), *pre, self.operand(nest, "obj"), *self.slots(nest, 0, 3))
         if kind == "dot":
             parts = []
             for _ in range(rng.randint(1, 3)):
@@ -956,72 +966,85 @@ class LeafGen:
                 if r < 0.45:
                     parts.append(E(S("m"), *self.slots(nest, 0, 3)))
                 elif r < 0.8:
-                    parts.append(L(*self.slot(nest, ["plain", "plain", "star", "dstar", "dstar-surplus"])))
+                    parts.append(L(*self.slot(nest, ["plain", "plain", "plain", "star", "dstar", "dstar-surplus"])))
                 else:
                     parts.append(S("attr"))
-            return E(S("."), self.operand(nest), *parts)
+            return E(S("."), self.operand(nest, "obj"), *parts)
         if kind in ("list", "tuple", "set"):
-            return seq({"list": "List", "tuple": "Tuple", "set": "Set"}[kind], self.slots(nest, 1, 4))
+            return seq({"list": "List", "tuple": "Tuple", "set": "Set"}[kind],
+                       self.slots(nest, 1, 4, want="hashable" if kind == "set" else "any"))
         if kind == "dict":
             kids = []
             for _ in range(rng.randint(1, 3)):
                 r = rng.random()
                 if r < 0.55:
-                    kids += [self.operand(nest), self.operand(nest)]
+                    kids += [self.operand(nest, "hashable"), self.operand(nest)]
                 elif r < 0.8:
                     self.unpacks += 1
                     self.kinds.add("slot:dict-dstar")
-                    kids.append(E(S("unpack-mapping"), self.operand(nest)))
+                    kids.append(E(S("unpack-mapping"), self.operand(nest, "obj")))
                 else:
                     # any slot kind, keeping the display even-length where possible
-                    s = self.slot(nest)
+                    s = self.slot(nest, want="hashable")
                     kids += s if len(s) == 2 else s + [self.operand(nest)]
             return seq("Dict", kids)
         if kind == "get":
-            return E(S("get"), *self.slot(nest, ["plain", "plain", "star", "dstar"]), *self.slots(nest, 1, 3))
+            return E(S("get"), *self.slot(nest, objslot, "obj"), *self.slots(nest, 1, 3, want="hashable"))
         if kind == "cut":
-            return E(S("cut"), *self.slot(nest, ["plain", "plain", "star", "dstar"]), *self.slots(nest, 0, 3))
+            return E(S("cut"), *self.slot(nest, objslot, "obj"), *self.slots(nest, 0, 3, want="hashable"))
         if kind == "op":
             op = rng.choice(["+", "-", "*", "/", "//", "%", "**", "<<", ">>", "|", "^", "&", "@", "bnot"])
             lo, hi = {"%": (2, 2), "^": (2, 2), "bnot": (1, 1)}.get(op, (1, 4))
-            return E(S(op), *self.slots(nest, lo, hi))
+            return E(S(op), *self.slots(nest, lo, hi, want="obj"))
         if kind == "cmp":
             op = rng.choice(["=", "<", "<=", ">", ">=", "!=", "is", "is-not", "in", "not-in"])
-            return E(S(op), *self.slots(nest, 2, 4))
+            if op in ("is", "is-not", "not-in"):
+                # a chain of these would short-circuit on the stand-ins: at most two operands
+                nokw = [k for k in UNPACK_SLOT_KINDS if k != "kw"]
+                first = self.slot(nest, nokw, "obj")
+                if op == "is" and rng.random() < 0.3:
+                    return E(S(op), *first)
+                return E(S(op), *first, *self.slot(nest, nokw, "obj"))
+            return E(S(op), *self.slots(nest, 1 if (op in CMP1 and rng.random() < 0.3) else 2, 4, want="obj"))
         if kind == "chainc":
-            kids = list(self.slot(nest, ["plain", "plain", "star", "dstar"]))
-            for _ in range(rng.randint(1, 3)):
-                kids.append(S(rng.choice(["<", "<=", "=", "!=", "in", "is"])))
+            kids = list(self.slot(nest, objslot, "obj"))
+            n = rng.randint(1, 3)
+            for i in range(n):
+                # only the last link may be one that yields a falsy result on stand-ins
+                ops = ["<", "<=", "=", "!=", "in", ">", ">="] + (["is", "is-not", "not-in"] if i == n - 1 else [])
+                kids.append(S(rng.choice(ops)))
                 kids.extend(self.slot(nest, ["plain", "plain", "plain", "star", "dstar", "long-dstar",
-                                             "dstar-surplus"]))
+                                             "dstar-surplus"], "obj"))
             return E(S("chainc"), *kids)
         if kind == "fstring":
             kids = []
+            fval = ["plain"] * 8 + ["star", "dstar"]
             for _ in range(rng.randint(1, 3)):
                 r = rng.random()
                 if r < 0.3:
                     kids.append(STR("s"))
                 elif r < 0.9:
-                    val = self.slot(nest, ["plain"] * 8 + ["star", "dstar"])
+                    conv = rng.choice([None, None, "r", "s", "a"])
+                    val = self.slot(nest, fval)
                     spec = []
-                    for _ in range(rng.choice([0, 1, 1, 2])):
+                    # after a conversion the spec applies to a str: keep it a single valid piece
+                    for _ in range(rng.choice([0, 1]) if conv else rng.choice([0, 1, 1, 2])):
                         q = rng.random()
                         if q < 0.35:
                             spec.append(STR(">4"))
                         elif q < 0.85:
-                            spec.append(seq("FComp", self.slot(nest, ["plain"] * 8 + ["star", "dstar"]),
-                                            conv=rng.choice([None, "r"])))
+                            spec.append(seq("FComp", self.slot(nest, fval), conv=rng.choice([None, "r"])))
                         else:
                             spec.extend(self.slot(nest, ["dstar", "star", "dstar-surplus"]))
-                    kids.append(seq("FComp", val + spec, conv=rng.choice([None, None, "r", "s", "a"])))
+                    kids.append(seq("FComp", val + spec, conv=conv))
                 else:
                     kids.extend(self.slot(nest, ["dstar", "star", "dstar-surplus"]))
             return seq("FStr", kids)
         if kind == "decorators":
-            return E(S("defn"), L(*self.slots(nest, 1, 3)), S("fname"), L(), I(1))
+            return E(S("defn"), L(*self.slots(nest, 1, 3, want="obj")), S("fname"), L(), I(1))
         if kind == "bases":
-            return E(S("defclass"), L(*self.slots(nest, 0, 2, ["plain", "star", "dstar", "dstar-surplus"])),
-                     S("Cname"), L(*self.slots(nest, 0, 3)))
+            return E(S("defclass"), L(*self.slots(nest, 0, 2, ["plain", "star", "dstar", "dstar-surplus"], "obj")),
+                     S("Cname"), L(*self.slots(nest, 0, 3, want="obj")))
         raise ValueError(kind)
 
 
